@@ -474,6 +474,16 @@ func (r *run) sched() {
 			if !wait(r.done[k], stepWait) {
 				return
 			}
+			if len(st.Tok) > 0 {
+				// the reply that arrived while SendFunc was held is handed over now: let its
+				// ProcessResponse return before the next reply is injected
+				r.prMu.Lock()
+				ch := r.prWG[Msg{Tok: st.Tok}.tokStr()]
+				r.prMu.Unlock()
+				if ch != nil && !wait(ch, stepWait) {
+					return
+				}
+			}
 		case "PRecv":
 			m, ok := r.msgs[Msg{Tok: st.Tok}.tokStr()]
 			if !ok {
@@ -569,7 +579,7 @@ func (r *run) finish() {
 	enq = append(enq, r.enq...)
 	r.emit("End", "ncb", ncb, "enq", enq, "stuck", stuck, "failed", r.failed)
 	for _, q := range r.queues {
-		q.Stop()
+		go q.Stop() // (Stop waits for a commit in progress: never wait for it here)
 	}
 }
 
